@@ -56,7 +56,10 @@ void AsyncFileAppender::discard(LogEntry& entry) noexcept {
 
 int AsyncFileAppender::close() noexcept {
   if (_write_thread.joinable()) {
-    _queue.push([](Item& target) {
+    // the writer thread pops with try_pop_n<false, false> (no futex wake-up), so
+    // the stop marker must be pushed like write() does: poll instead of a futex
+    // wait nobody would ever wake when the queue is full
+    _queue.push<true, false, false>([](Item& target) {
       target.entry.size = 0;
       target.file = nullptr;
     });
